@@ -23,6 +23,7 @@ mod fam_marks;
 mod fam_patch;
 mod fam_recon;
 mod fam_anon;
+mod fam_doc;
 mod gen;
 mod model;
 
@@ -61,6 +62,7 @@ fn main() {
         "patch" => fam_patch::run(&mut rng, &tier, out),
         "recon" => fam_recon::run(&mut rng, &tier, out),
         "anon" => fam_anon::run(&mut rng, &tier, out),
+        "doc" => fam_doc::run(&mut rng, &tier, out),
         _ => {
             eprintln!("unknown family {}", fam);
             std::process::exit(2);
